@@ -136,8 +136,8 @@ Judge(e) ==
            \* result is judged by TraceNode (C13); here only the frame (C11)
            Frame(e, {})
        [] e.op = "Query" ->
-           \* any other read-only call: only the frame is judged
-           Frame(e, {})
+           \* any other read-only call: only the frame is judged (registers, and for a serialization the rest of the document)
+           Frame(e, {}) \cup (IF "docchanged" \in DOMAIN e /\ e.docchanged # "" THEN {"frame.Query.doc-" \o e.docchanged} ELSE {})
        [] e.op = "Skip" -> {}
        [] e.op = "AddNode" ->
            (IF P[e.a] = [reg[e.a] EXCEPT !.nodes = Append(@, e.n)] THEN {} ELSE {"builder.addnode"}) \cup Frame(e, {e.a})
